@@ -240,10 +240,10 @@ pub fn spec(id: &str) -> Option<PropSpec> {
         "C16" => PropSpec {
             id: "C16",
             level: "exploration",
-            families: vec![(Family::C16, 70), (Family::C11, 10), (Family::C06, 10), (Family::C04, 10)],
-            quick_runs: 30_000,
+            families: vec![(Family::C16X, 42), (Family::C16, 40), (Family::C11, 6), (Family::C06, 6), (Family::C04, 6)],
+            quick_runs: 32_000,
             thorough_runs: 2_500_000,
-            rule: "one run = 1..8 well-formed packets drawn from 17 (v5) / 15 (v3) templates with ids {1,2,3} (unexpected directions, duplicate CONNECT/CONNACK, AUTH, acks for nothing, stray PUBREL, streamed publish after a publish with the same id), optionally instead of the handshake, against idle or busy application state (outstanding QoS1/QoS2/subscribe/streamed sends, gated handlers) followed by a liveness probe (PINGREQ to servers, QoS1 publish to clients); oracle: no panic anywhere (monitor applies to every family), connection either alive and answering the probe at final quiescence or ended with exactly one Stop to the control service and a completed connection task; sampled, not enumerated: sequences of length <= 3 form a space of about 20k per batch of 30k runs; distinct = distinct abstract history signature; non-trivial = every run",
+            rule: "two families. (1) C16X, enumeration: the packet alphabet of a role (27 letters for MQTT 5, 23 for MQTT 3.1.1: QoS 1 / QoS 2 PUBLISH, PUBACK, PUBREC, PUBREL, PUBCOMP, SUBSCRIBE, SUBACK, UNSUBSCRIBE, UNSUBACK each with identifier 1 and 2; QoS 0 PUBLISH, PINGREQ, PINGRESP, a second CONNECT / CONNACK, DISCONNECT, and for MQTT 5 AUTH and DISCONNECT with a reason), EVERY sequence of length 1, 2 and 3 over it, in all four roles, against five application states (idle with immediate handlers; idle with gated handlers; an at-least-once and an exactly-once send outstanding and a silent peer; a streamed send, ready() and a subscribe / publish in progress with an acknowledging peer; the sequence sent instead of the handshake): 331,580 points, ordered so that the first 13,080 are all sequences of length <= 2; the quick tier executes those (complete for length <= 2), the thorough tier executes the whole enumeration several times, each execution under its own seeded schedule (fragmentation, placement of handler completions and acknowledgements). (2) C16, seeded: 1..8 well-formed packets drawn from 17 (v5) / 15 (v3) templates with ids {1,2,3} and payloads up to 300 bytes, optionally instead of the handshake, against idle or busy application state, plus the motif of a streamed publish right after a publish with the same id. Both end with a liveness probe (PINGREQ to servers, QoS 1 publish to clients); oracle: no panic anywhere (monitor applies to every family), connection either alive and answering the probe at final quiescence or ended with exactly one Stop to the control service and a completed connection task; distinct = distinct abstract history signature; non-trivial = every run",
             nontrivial: nt_any,
             assumptions: base,
         },
